@@ -190,6 +190,14 @@ func c17hist(c *Ctx) {
 					rl.title = gen.Pick(r, []string{"n\u00e9", "\u65e5\u672c", "\u00e9", "\u00fc\u00df", "\u0416\u0443\u043a", "\U0001f600x"}) + gen.Pick(r, []string{"", "", "1", "\u00e9"})
 					c.R.Add("short_non_ascii_titles_tried", 1)
 				}
+				if r.P(6) {
+					// a title that is itself wrapped in quotation marks (or is one of them twice): a title like any other,
+					// it is not the quoted spelling of the name inside
+					inner := gen.Pick(r, []string{rl.title, "info", "Quoted", "", "warn", "x"})
+					qc := gen.Pick(r, []string{"\"", "'"})
+					rl.title = qc + inner + qc
+					c.R.Add("quote_wrapped_titles_tried", 1)
+				}
 				if r.P(8) {
 					// a title that is a decimal number: often the numeric value of ANOTHER level (names and values are
 					// different namespaces)
